@@ -158,8 +158,14 @@ class Loader:
                 else:
                     self.labels[name] = i
         self.names = {}  # alias / define -> operand
+        self.vregs = {}
 
     def operand(self, tok, kind):
+        if tok.startswith("__register."):
+            # virtual register of the pre-allocation stream (C04): one machine register each
+            if tok not in self.vregs:
+                self.vregs[tok] = 18 + len(self.vregs)
+            return ["r", self.vregs[tok]]
         r = reg_index(tok)
         if r is not None:
             return ["r", r]
@@ -184,6 +190,12 @@ class Loader:
             cls, _, mem = tok.partition(".")
             if cls in en and mem in en[cls]:
                 return ["v", [en[cls][mem], 1]]
+        # a bare enum member name in a value position: the chip knows these names as constants;
+        # resolved only when all enums that have the name agree on the number (else unresolved,
+        # which makes a case inconclusive, never a violation)
+        vals = {en[c][tok] for c in KIND_ENUM.values() if tok in en.get(c, {})}
+        if len(vals) == 1:
+            return ["v", [vals.pop(), 1]]
         return ["x", tok]
 
     def load(self):
